@@ -24,6 +24,10 @@ import types
 from ..core.ctx import HarnessError
 
 
+_REAL_THREAD_START = _realthreading.Thread.start      # captured before the ambient seam may patch it
+HARNESS_BUSY = 0
+
+
 class Deadlock(Exception):
     pass
 
@@ -137,7 +141,12 @@ class Sched:
             sched.ctx.log('sched', 'task-done', t.name)
             sched._switch_from(t, finished=True)
         t.thread = _realthreading.Thread(target=body, name='dfsim-' + name, daemon=True)
-        t.thread.start()
+        global HARNESS_BUSY
+        HARNESS_BUSY += 1           # the real start() waits on an Event: not a synchronisation point of the code under test
+        try:
+            _REAL_THREAD_START(t.thread)
+        finally:
+            HARNESS_BUSY -= 1
         t.started = True
         return t
 
